@@ -3,11 +3,14 @@
 package gomatrixserverlib
 
 import (
+	"encoding/json"
 	"fmt"
 	"reflect"
 	"regexp"
 	"strings"
+	"time"
 
+	"github.com/matrix-org/gomatrixserverlib/spec"
 	"pgregory.net/rapid"
 )
 
@@ -26,6 +29,10 @@ type c03Case struct {
 	Alt   *evProto  `json:"alt,omitempty"` // differs from P in exactly one field (Diff)
 	Diff  string    `json:"diff,omitempty"`
 }
+
+// c03Template is the variable request bodies are decoded into: twice per case, the second time while
+// the builder made after the first is still in use.
+var c03Template ProtoEvent
 
 type c03View struct {
 	EventID, Type, Sender, RoomID string
@@ -238,6 +245,52 @@ func c03Check(ctx *vfCtx, c c03Case) {
 	if ctx.Failed() {
 		return
 	}
+	// --- the same proto-event as a handler gets it: decoded from JSON into a template variable that is
+	// reused for the next request while the builder made from it is still in use
+	if tr.Format == 2 && len(p.Content) >= 2 {
+		mk := func(q evProto) ([]byte, error) {
+			pe := ProtoEvent{SenderID: q.Sender, RoomID: q.RoomID, Type: q.Type, StateKey: q.StateKey, Redacts: q.Redacts, Depth: q.Depth, Content: spec.RawJSON(q.Content)}
+			if len(q.Unsigned) > 0 {
+				pe.Unsigned = spec.RawJSON(q.Unsigned)
+			}
+			pe.PrevEvents = append([]string{}, q.Prev...)
+			pe.AuthEvents = append([]string{}, q.Auth...)
+			return json.Marshal(pe)
+		}
+		next := p
+		next.Content = vfBytes(`"` + strings.Repeat("x", len(p.Content)-2) + `"`) // another request, a body of the same size (never built)
+		t1, e1 := mk(p)
+		t2, e2 := mk(next)
+		if e1 == nil && e2 == nil {
+			var dev PDU
+			var derr error
+			if vfCatch(ctx, "C03/decoded-template", func() {
+				c03Template = ProtoEvent{} // (fields a body leaves out keep their old value when decoding into a used struct)
+				if derr = json.Unmarshal(t1, &c03Template); derr != nil {
+					return
+				}
+				eb := impl.NewEventBuilderFromProtoEvent(&c03Template)
+				if derr = json.Unmarshal(t2, &c03Template); derr != nil {
+					return
+				}
+				_, priv := vfKeyFor(p.Key)
+				dev, derr = eb.Build(time.UnixMilli(p.TS), spec.ServerName(p.Origin), KeyID(p.KeyID), priv)
+			}) {
+				return
+			}
+			if derr != nil || dev == nil {
+				ctx.Fail("C03/built-from-decoded-template-fails", "the proto-event builds directly; a builder made from its decoded form, built after the template variable was decoded into again, fails: %v", derr)
+				return
+			}
+			if derr == nil && dev != nil {
+				ctx.Class("built-from-a-decoded-template")
+				if dv, ok := c03ViewOf(ctx, "accessors/decoded-template", dev); ok && !c03Same(dv, orig) {
+					ctx.Fail("C03/built-from-decoded-template-differs", "a builder made from the decoded proto-event, built after the template variable was decoded into again, gives %v; the proto-event built directly gives %v", dv, orig)
+					return
+				}
+			}
+		}
+	}
 	// --- siblings: the built event with ONE protected field changed and `hashes` left as it was (what a
 	// relaying server could hand over). Their identity is that of their own redacted form, whatever was
 	// parsed before them in this process (the built event, a moment ago).
@@ -333,6 +386,38 @@ func c03Check(ctx *vfCtx, c c03Case) {
 
 	// --- edits to unsigned / signatures / redaction never change the identity
 	cur := ev
+	// ... nor anybody else's event: copies parsed from the event's own JSON (they may share its bytes)
+	// and the bytes JSON() handed out - taken before the edits and again after each of them - read at
+	// the end as they did when they were taken
+	type c03Held struct {
+		when  string
+		bytes []byte
+		text  string
+		twin  PDU
+	}
+	var held []c03Held
+	hold := func(when string, e PDU) {
+		h := c03Held{when: when, bytes: e.JSON()}
+		h.text = string(h.bytes)
+		vfCatch(ctx, "C03/twin", func() { h.twin, _ = impl.NewEventFromTrustedJSON(e.JSON(), e.Redacted()) })
+		held = append(held, h)
+	}
+	hold("before the edits", ev)
+	defer func() {
+		if ctx.Failed() || len(c.Edits) == 0 {
+			return
+		}
+		for _, h := range held {
+			if string(h.bytes) != h.text {
+				ctx.Fail("C03/edit-writes-into-bytes-handed-out-earlier", "the bytes JSON() returned %s read %q then, and %q after the later edits", h.when, h.text, h.bytes)
+				return
+			}
+			if h.twin != nil && string(h.twin.JSON()) != h.text {
+				ctx.Fail("C03/edit-changes-another-event", "an event parsed %s from the event's JSON read %q then, and reads %q after the later edits", h.when, h.text, h.twin.JSON())
+				return
+			}
+		}
+	}()
 	fresh := func(label string, e PDU) {
 		// the ID of a freshly parsed copy (no cached ID) must equal the original
 		var id string
@@ -358,9 +443,12 @@ func c03Check(ctx *vfCtx, c c03Case) {
 			ctx.Fail("C03/event-id-changed-by/"+label+"/cached", "cached event ID changed by %s: %s -> %s", label, orig.EventID, cid)
 		}
 	}
-	for _, ed := range c.Edits {
+	for i, ed := range c.Edits {
 		if ctx.Failed() {
 			return
+		}
+		if i > 0 {
+			hold(fmt.Sprintf("after edit %d", i), cur)
 		}
 		ctx.Class("edit/" + ed.Op)
 		switch ed.Op {
@@ -595,6 +683,10 @@ func c03Gen(t *rapid.T) c03Case {
 			ed.Value = vfBytes(jplain(jobj(vfGenServerName(t, "rsigner"), jobj("ed25519:zz", jstr("c2ln")))))
 		}
 		c.Edits = append(c.Edits, ed)
+		if ed.Op == "set_unsigned_field" && rapid.Bool().Draw(t, "againShorter") {
+			// the same field once more, with a value that is no longer than the one just written
+			c.Edits = append(c.Edits, c03Edit{Op: "set_unsigned_field", Path: ed.Path, Value: vfBytes("0")})
+		}
 	}
 	if rapid.Bool().Draw(t, "pair") {
 		alt := c.P
